@@ -56,7 +56,9 @@ impl FrameFut {
     /// R14: `frame.await` on the hand-written future ReceiveFrameFut is modelled as this async stand-in
     #[verifier::external_body]
     pub async fn wait(self) -> (r: Result<ReceivedFrame, Error>)
-        ensures r is Ok ==> echo_shape(self.sent@, (r->Ok_0).pdus@)
+        ensures r is Ok ==> echo_shape(self.sent@, (r->Ok_0).pdus@),
+            // (the first datagram, stated without a quantifier for callers that discard the frame)
+            r is Ok && self.sent@.len() > 0 ==> exists|g: RxPdu| #[trigger] answered(self.sent@[0].cmd, g) && g.data.len() == self.sent@[0].len,
     { unimplemented!() }
 }
 impl ReceivedFrame {
